@@ -1,12 +1,62 @@
-(* C14 — statements are added as the proofs land (see DESIGN.md section 6). *)
-From Coq Require Import String Ascii List.
-From Bkl Require Import Model.Value Model.Str Model.Eval.
+(* C14 — $encode produces the named encodings, transforms stack left to right; base64 is inverted by its decoder.
+   sha256 and the json/yaml/toml codecs are oracles [o_sha], [o_enc] (supplied per run by independent
+   implementations); base64 is real Gallina. Proofs in Proofs/Base64Proofs.v. *)
+From Coq Require Import String Ascii List ZArith.
+From Bkl Require Import Model.Value Model.Str Model.Eval Proofs.Base64Proofs.
 Import ListNotations.
 Local Open Scope string_scope.
 Local Open Scope list_scope.
+
+(* RFC 4648 base64 with padding: decoding an encoding gives the original bytes back, for every byte string *)
+Theorem C14_base64_inverse : forall s, b64_decode (b64_encode s) = Some s.
+Proof. exact b64_roundtrip. Qed.
+Print Assumptions C14_base64_inverse.
+
+(* each transform, as an equation *)
+Theorem C14_base64 : forall o v, encode_string o v "base64" = Ok (VStr (b64_encode (show v))).
+Proof. reflexivity. Qed.
+Print Assumptions C14_base64.
+
+Theorem C14_sha256 : forall o v, encode_string o v "sha256" = bind (o_sha o (show v)) (fun h => Ok (VStr h)).
+Proof. reflexivity. Qed.
+Print Assumptions C14_sha256.
+
+Theorem C14_join : forall o l, encode_string o (VList l) "join:," = Ok (VStr (String.concat "," (map show l))).
+Proof. reflexivity. Qed.
+Print Assumptions C14_join.
+
+Theorem C14_prefix : forall o l, encode_string o (VList l) "prefix:--" = Ok (VList (map (fun x => VStr ("--" ++ show x)) l)).
+Proof. intros. cbn. now rewrite map_map. Qed.
+Print Assumptions C14_prefix.
+
+Theorem C14_values : forall o m, encode_string o (VMap m) "values" = Ok (VList (map snd m)).
+Proof. reflexivity. Qed.
+Print Assumptions C14_values.
+
+Theorem C14_flatten : forall o l, encode_string o (VList l) "flatten" =
+  Ok (VList (flat_map (fun x => match x with VList y => y | _ => [x] end) l)).
+Proof. reflexivity. Qed.
+Print Assumptions C14_flatten.
 
 (* flags is tolist:= followed by prefix:-- *)
 Theorem C14_flags : forall o obj, encode_string o obj "flags" =
   bind (encode_string o obj "tolist:=") (fun x => encode_string o x "prefix:--").
 Proof. intros; reflexivity. Qed.
 Print Assumptions C14_flags.
+
+(* transforms given as a list apply left to right *)
+Theorem C14_stack : forall o ts obj,
+  encode_any o obj (VList ts) = fold_left (fun acc t => bind acc (fun a => encode_any o a t)) ts (Ok obj).
+Proof.
+  intros o ts. cbn [encode_any]. induction ts as [|t r IH]; intro obj; [reflexivity|].
+  cbn [fold_left bind]. destruct (encode_any o obj t) as [a|e]; cbn [bind].
+  - apply IH.
+  - clear. induction r as [|x r IH]; [reflexivity|]. cbn. exact IH.
+Qed.
+Print Assumptions C14_stack.
+
+(* malformed arguments are errors *)
+Theorem C14_bad_args : forall o v, encode_string o v "base64:x" = Err EInvalidArgs /\ encode_string o v "prefix" = Err EInvalidArgs /\
+  encode_any o v (VInt 5) = Err EInvalidType /\ (o_fmt o "bogus" = false -> encode_string o v "bogus" = Err EUnknownFormat).
+Proof. intros o v. repeat split; try reflexivity. intro H. cbn. now rewrite H. Qed.
+Print Assumptions C14_bad_args.
